@@ -232,7 +232,10 @@ def set_typed_names(fi: FuncInfo) -> dict[str, ast.AST]:
             if cn == "get" and len(v.args) == 2 and is_set_expr(v.args[1]):
                 return True
         if isinstance(v, ast.BinOp) and isinstance(v.op, ast.BitOr | ast.BitAnd | ast.Sub | ast.BitXor):
-            return is_set_expr(v.left) or is_set_expr(v.right)
+            def is_view(e):
+                return isinstance(e, ast.Call) and isinstance(e.func, ast.Attribute) and e.func.attr in ("keys", "items") and not e.args
+            # set algebra on dict views (`d.keys() - e.keys()`) yields a set
+            return is_set_expr(v.left) or is_set_expr(v.right) or is_view(v.left) or is_view(v.right)
         if isinstance(v, ast.Name) and v.id in out:
             return True
         return False
